@@ -1114,8 +1114,11 @@ int32 psX509ParseCRL(psPool_t *pool, psX509Crl_t **crl, unsigned char *crlBin,
                 timetag = *p;
                 p++;
                 if (getAsnLength(&p, (uint32) (end - p), &timelen) < 0 ||
-                        (uint32) (end - p) < timelen)
+                        (uint32) (end - p) < timelen ||
+                        (uint32) (p - start) > ilen ||
+                        ilen - (uint32) (p - start) < timelen)
                 {
+                    /* The date must lie inside this revoked entry */
                     psTraceCrypto("Malformed thisUpdate CRL\n");
                     psX509FreeCRL(lcrl);
                     return PS_PARSE_FAIL;
